@@ -1,4 +1,4 @@
 CONSTANTS GAPSIZES = {1, 2}  GAPS = {0, 3}  MAXE = 2  MAXW = 0  ITERS = 2  KEYS = {1, 2}
 SPECIFICATION Spec
-INVARIANTS C14_Session
+INVARIANTS C14_Session EmitReplay
 CHECK_DEADLOCK FALSE
